@@ -352,6 +352,9 @@ def tensordot(lhs, rhs, axes=2):
 
 @derived_from(np, ua_args=["out"])
 def dot(a, b):
+    if np.ndim(a) == 0 or np.ndim(b) == 0:
+        # numpy: a scalar operand makes dot an element-wise multiplication
+        return asanyarray(a) * asanyarray(b)
     return tensordot(a, b, axes=((a.ndim - 1,), (b.ndim - 2,)))
 
 
